@@ -300,6 +300,20 @@ def ext(t, body):
     return struct.pack("!HH", t, len(body)) + body
 
 
+def _frag(msgs, bits, n):
+    """n > 0: the flight is one byte stream cut into records of at most n bytes (RFC 5246 6.2.1 / RFC 8446 5.1: a handshake message may
+    be fragmented across several records, and a record may hold the end of one message and the start of the next); else _group"""
+    if not n:
+        return _group(msgs, bits)
+    data = b"".join(m for _, m in msgs)
+    starts, off = [], 0
+    for t, m in msgs:
+        starts.append((off, t))
+        off += len(m)
+    # a record is tagged with the messages that start in it ("FRAG" if it only continues one)
+    return [("+".join(t for o, t in starts if i <= o < i + n) or "FRAG", data[i:i + n]) for i in range(0, len(data), n)]
+
+
 def _group(msgs, bits):
     """msgs: [(tag, bytes)] -> [(tag, bytes)] where message i+1 is joined to message i's record iff bit i of `bits`."""
     out = []
@@ -470,7 +484,7 @@ class TlsConn:
             if sp["ske"]:
                 msgs.append(("SKE", hs(12, rbytes(rnd, 70))))
             msgs.append(("SHD", hs(14, b"")))
-            for t, m in _group(msgs, g):
+            for t, m in _frag(msgs, g, sp.get("hs_frag", 0)):
                 self._plain(True, 0x16, m, rv, t)
             self._plain(False, 0x16, hs(16, rbytes(rnd, 130)), rv, "CKE")
             self._plain(False, 0x14, b"\x01", rv, "CCS")
@@ -504,7 +518,7 @@ class TlsConn:
         self.w = {False: cw, True: sw}
         msgs = [("EE", hs(8, b"\x00\x00")), ("CERT", hs(11, rbytes(rnd, sp["cert_len"]))), ("CV", hs(15, rbytes(rnd, 70))),
                 ("FIN", hs(20, rbytes(rnd, hl)))]
-        for t, m in _group(msgs, self.grouping):
+        for t, m in _frag(msgs, self.grouping, sp.get("hs_frag", 0)):
             self._enc(True, sw.protect(0x16, m, self.pad13), t)
         sw.set_secret(sec["sap"])
         if sp["ccs13"]:
